@@ -213,7 +213,7 @@ def execute(plan, choices=None):
         elif res is not None:
             for h in res["hits"]:
                 V("key_on_disk", _fileclass(h["file"]),
-                  f"{h['file']} contains the API key ({['raw', 'base64', 'hex'][h['enc']]}) - first seen at [{h['at']}] during phase {h['phase']}; "
+                  f"{h['file']} contains the API key ({['raw', 'base64', 'hex'][h['enc'] % 3]}{', the key of the earlier run in this folder' if h['enc'] >= 3 else ''}) - first seen at [{h['at']}] during phase {h['phase']}; "
                   f"a crash at that point leaves it on disk; plan={describe(plan)}")
                 break
             fault_fired = res.get("fault_fired") or res.get("fault_fired_login")
